@@ -7,6 +7,7 @@ or written before the `buffered >= counter` guard, and the insufficient-data exi
 (R02.4) one framing site, no re-wrapping of the transport, the handshake's framed reader is the one that
 is moved into the socket. Does NOT decide equality of decoded sequences over all partitions."""
 from ..sym import Sym, show, walk_expr, PathExplosion
+from ..facts import callee_name
 from ..common import trait_impls, short, strip_casts, len_base, coroutine_of
 from ..pathq import default_inline
 
@@ -355,18 +356,28 @@ def check_framing_sites(f, rep):
             rep.bad("R02.4", "R02.4|%s|into_parts" % ty, "FramedIo::into_parts not called (anchor-missing)", co.loc())
             continue
         # the read half type appears as an argument of insert(..), in an aggregate, or as a capture of a spawned task
+        from ..pathq import default_inline
+        looked_through = default_inline(f)
         sinks = []
-        for bb, blk in enumerate(co.blocks):
-            for st in blk["stmts"]:
-                if st["k"] == "assign" and st["rv"]["k"] == "aggregate":
-                    for o in st["rv"]["ops"]:
-                        if o["k"] == "move" and "FramedRead" in o["place"].get("ty", ""):
-                            sinks.append("aggregate:%s" % (st["rv"].get("adt") or st["rv"].get("def") or st["rv"]["ak"]))
-            t = blk["term"]
-            if t["k"] == "call" and t["func"].get("fn"):
-                for o in t["args"]:
-                    if o["k"] == "move" and "FramedRead" in o["place"].get("ty", "") and not o["place"]["ty"].startswith("&"):
-                        sinks.append("call:%s" % t["func"]["fn"]["name"])
+
+        def scan(body, depth):
+            for bb, blk in enumerate(body.blocks):
+                for st in blk["stmts"]:
+                    if st["k"] == "assign" and st["rv"]["k"] == "aggregate":
+                        for o in st["rv"]["ops"]:
+                            if o["k"] == "move" and "FramedRead" in o["place"].get("ty", ""):
+                                sinks.append("aggregate:%s" % (st["rv"].get("adt") or st["rv"].get("def") or st["rv"]["ak"]))
+                t = blk["term"]
+                if t["k"] == "call" and t["func"].get("fn"):
+                    fn = t["func"]["fn"]
+                    for o in t["args"]:
+                        if o["k"] == "move" and "FramedRead" in o["place"].get("ty", "") and not o["place"]["ty"].startswith("&"):
+                            cb = f.body(callee_name(fn))
+                            if depth < 3 and looked_through(fn) and cb is not None:
+                                scan(cb, depth + 1)        # a private helper: where does *it* put the read half
+                            else:
+                                sinks.append("call:%s" % fn["name"])
+        scan(co, 0)
         live = [s for s in sinks if s.startswith("call:insert") or s.startswith("aggregate:")]
         rep.check(bool(live), "R02.4", "R02.4|%s|read-half-owner" % ty,
                   "the handshake's read half (with its buffered bytes) is handed to a live owner: %s" % sorted(set(sinks)), co.loc())
